@@ -108,7 +108,18 @@ pub enum Rule {
     /// ed25519 only: the neutral element as public key with the signature (R = neutral, s = 0),
     /// which non-strict verification accepts for every message. Outside C01/C02 (weak key), but
     /// the ed25519 key type and CombinedKey must still agree on it (C11).
-    EdSmallOrder,
+    EdSmallOrder(u8),
+    /// 64-byte untagged x || y under the secp256k1 entry (neither compressed nor SEC1)
+    PkRawXY,
+    /// the signer grinds the sequence number until the signature starts with a zero byte and sends
+    /// the remaining 63 bytes: a verifier that left-pads short signatures would accept it
+    SigLeadingZeroStripped,
+    /// an unusable byte string (empty / 3 bytes / 33 bytes off the curve / 31 bytes) under the OTHER
+    /// scheme's key entry: the record is still a valid record of its own scheme
+    JunkOtherKey(u8),
+    /// a genuine signature over the wrong pre-image: ed25519 over keccak256(content) instead of the
+    /// content, secp256k1 over keccak256(keccak256(content))
+    SigOverDigest,
 }
 
 impl Rule {
@@ -272,10 +283,51 @@ pub fn emit(c: &Content, rule: &Rule, canon_sig: bool) -> Vec<u8> {
         Rule::InnerNonCanonList => {
             set(&mut sem, b"zlist", rlp::enc_list(&[0x81, 0x05, 0xb8, 0x01, 0x61]));
         }
-        Rule::EdSmallOrder => {
+        Rule::JunkOtherKey(n) => {
+            let other = match c.kind {
+                PkKind::Secp => PkKind::Ed,
+                _ => PkKind::Secp,
+            };
+            let junk: Vec<u8> = match n % 4 {
+                0 => vec![],
+                1 => vec![1, 2, 3],
+                2 => {
+                    let mut v = vec![0x02u8];
+                    v.extend_from_slice(&[0xff; 32]);
+                    v
+                }
+                _ => vec![0x42; 31],
+            };
+            sem.insert(other.entry_key().to_vec(), rlp::enc_str(&junk));
+        }
+        Rule::PkRawXY => {
+            if c.kind == PkKind::Secp {
+                let pk = ref_pk(c.kind, c.key_idx);
+                if let Some(u) = rc::secp_uncompressed(&pk, Lib::Libsecp) {
+                    sem.insert(pk_entry.clone(), rlp::enc_str(&u));
+                }
+            }
+        }
+        Rule::EdSmallOrder(variant) => {
             if c.kind == PkKind::Ed {
+                // the neutral element: canonical, and three non-canonical spellings of it
                 let mut neutral = [0u8; 32];
-                neutral[0] = 1;
+                match variant % 4 {
+                    0 => neutral[0] = 1,
+                    1 => {
+                        neutral[0] = 1;
+                        neutral[31] = 0x80;
+                    }
+                    2 => {
+                        neutral = [0xff; 32];
+                        neutral[0] = 0xee;
+                        neutral[31] = 0x7f;
+                    }
+                    _ => {
+                        neutral = [0xff; 32];
+                        neutral[0] = 0xee;
+                    }
+                }
                 sem.insert(pk_entry.clone(), rlp::enc_str(&neutral));
             }
         }
@@ -333,12 +385,36 @@ pub fn emit(c: &Content, rule: &Rule, canon_sig: bool) -> Vec<u8> {
         }
         _ => {}
     }
-    let payload = refrec::signed_payload(seq_signed, &signed_pairs);
+    let mut payload = refrec::signed_payload(seq_signed, &signed_pairs);
     let mut sig = ref_sign(c.kind, c.key_idx, &payload);
+    if *rule == Rule::SigOverDigest {
+        let d = rc::keccak256(&payload);
+        sig = match c.kind {
+            PkKind::Ed => rc::ed_sign(&pool_secret(c.key_idx), &d),
+            PkKind::Secp => rc::secp_sign(&pool_secret(c.key_idx), &rc::keccak256(&d), Lib::Libsecp).unwrap_or_default(),
+            PkKind::Var => sig,
+        };
+    }
+    if *rule == Rule::SigLeadingZeroStripped && c.kind == PkKind::Secp {
+        // deterministic signatures: vary the sequence number until r starts with a zero byte
+        let mut s2 = seq_signed;
+        for _ in 0..4000 {
+            if sig.first() == Some(&0) {
+                break;
+            }
+            s2 = s2.wrapping_add(1);
+            payload = refrec::signed_payload(s2, &signed_pairs);
+            sig = ref_sign(c.kind, c.key_idx, &payload);
+        }
+        if sig.first() == Some(&0) {
+            seq_wire = rlp::enc_uint(s2);
+            sig.remove(0);
+        }
+    }
     if let Rule::SigLen(n) = rule {
         sig.resize(usize::from(*n), 0x01);
     }
-    if *rule == Rule::EdSmallOrder && c.kind == PkKind::Ed {
+    if matches!(rule, Rule::EdSmallOrder(_)) && c.kind == PkKind::Ed {
         sig = vec![0u8; 64];
         sig[0] = 1;
     }
